@@ -72,7 +72,16 @@ def run_check(pid, tier, seed, replay=None):
     lines = [c.line for c in cases]
     env = dict(os.environ); env.update(getattr(prop, "ENV", {}))
     impl = core.run_lines(drv, lines, rundir, "impl", env=env)
-    model = core.run_lines(model_exe, lines, rundir, "model")
+    derive = getattr(prop, "derive", None)
+    if derive:
+        # two-phase correspondence: the model is run with environment values (nonces, process key) read back from the implementation
+        raw = impl; pairs = [derive(c, r) for c, r in zip(cases, raw)]
+        impl = [p[1] for p in pairs]
+        model = core.run_lines(model_exe, [p[0] for p in pairs], rundir, "model")
+        for c, p in zip(cases, pairs):
+            if c.spec is None and len(p) > 2: c.spec = p[2]
+    else:
+        model = core.run_lines(model_exe, lines, rundir, "model")
 
     # 4. diff + failing-input search
     mism = [i for i in range(len(cases)) if impl[i] != model[i]]
